@@ -174,9 +174,11 @@ func (ex *Exec) loopHeader(fr *Frame, h *ssa.BasicBlock, ord int, st *State, phi
 	}
 	env := ex.loopEnv(fr, st, h, newPhis)
 	if ex.recording == nil {
+		env.assuming = true
 		for _, inv := range spec.Invariants {
 			st.assume(env.boolTerm(inv.Expr))
 		}
+		env.assuming = false
 		for _, ft := range ex.loopFrame(fr, st, h) {
 			st.assume(ft.t)
 		}
@@ -195,7 +197,21 @@ func (ex *Exec) loopHeader(fr *Frame, h *ssa.BasicBlock, ord int, st *State, phi
 func (ex *Exec) havocSet(st *State, ws *WriteSet) {
 	if ws.All {
 		ex.havocAll(st)
+		st.Each = nil
 	}
+	var keep []*EachFact
+	for _, f := range st.Each {
+		dropped := false
+		for n := range ws.Names {
+			if strings.HasPrefix(n, "M:[]"+f.ElemKey) {
+				dropped = true
+			}
+		}
+		if !dropped {
+			keep = append(keep, f)
+		}
+	}
+	st.Each = keep
 	for _, n := range sortedKeys(ws.Names) {
 		switch {
 		case strings.HasPrefix(n, "H:"):
@@ -425,9 +441,11 @@ func (ex *Exec) verifyFunction(fn *ssa.Function) (rep *FuncReport) {
 	ex.entry = st // provisional for baseEnv
 	env := ex.baseEnv(fr0, st)
 	env.old = st
+	env.assuming = true
 	for _, r := range c.Requires {
 		st.assume(env.boolTerm(r.Expr))
 	}
+	env.assuming = false
 	entry := st.clone()
 	ex.entry = entry
 	st.Dirty = map[string]bool{}
@@ -478,6 +496,14 @@ func (ex *Exec) atReturn(fr *Frame, c *Contract, st *State, res Value) {
 	ex.applyGhostSets(env, c, st)
 	for _, e := range c.Ensures {
 		ex.oblige(st, "ensures", e.Label, e.Props, env.boolTerm(e.Expr), fr.fn.Pos(), ex.fnKey)
+	}
+	if len(c.AtReturn) > 0 && fr.lastRet != nil {
+		lenv := ex.localEnv(fr, st, fr.lastRet)
+		lenv.old = ex.entry
+		ex.bindResults(lenv, c, fr.fn, res, resT)
+		for _, e := range c.AtReturn {
+			ex.oblige(st, "atreturn", e.Label, e.Props, lenv.boolTerm(e.Expr), fr.lastRet.Pos(), ex.fnKey)
+		}
 	}
 	if ex.con != nil && (c.HasMod || len(c.Ensures) > 0) {
 		ex.frameCheck(env, c, st)
